@@ -175,6 +175,10 @@ def r1_entries_consult_the_mark(w):
     for (caller, callee), loc in sorted(edges.items()):
         cons = {'bypass': '%s -> %s' % (caller, callee)}
         why = BYPASS.get((caller, callee))
+        if not why:
+            cands = [x for x in w.fn_bodies(core) if last(x.short) == callee and x.def_kind != 'Closure']
+            if len(cands) == 1 and c10._leaf_emits_own_text(w, cands[0].short):
+                why = 'emits exactly the node\'s own text: verbatim with or without the mark'
         if why:
             r.ok(cons, why)
         else:
@@ -243,27 +247,55 @@ EXTRA_CONFIGS = ['core-serde']
 DIRECTIVE = '@typstyle off'
 
 
-def _marking_pass(w):
-    """the function of the attribute module that loops over children and calls the format-disabled setter (found by role)"""
-    core = w.core
-    setters = [b for b in w.fn_bodies(core) if b.def_kind != 'Closure' and b.short.startswith('attr::') and b.short.endswith('set_format_disabled')]
-    if len(setters) != 1:
-        raise AnchorMissing('attr::..::set_format_disabled')
-    cands = []
-    for b in w.fn_bodies(core):
-        if b.def_kind == 'Closure' or not b.short.startswith('attr::'):
+FLAG_FIELD = 'Attributes.is_format_disabled'
+
+
+def _stores_flag(w, b):
+    """the body assigns to the format-disabled flag of an Attributes value"""
+    from tyutil import name_projection
+    from prov import place_key
+    for blk in b.blocks:
+        if blk['cleanup']:
             continue
-        if any(resolved_id(t) == setters[0].id for _, t in b.calls()) and any((callee_path(t) or '').endswith('Iterator::next') for _, t in b.calls()):
+        for st in blk['stmts']:
+            if st['s'] == 'assign' and st['p']['proj']:
+                l, pr = place_key(st['p'])
+                steps, _ = name_projection(w, b.locals[l]['ty'], pr)
+                if steps and steps[-1].endswith(FLAG_FIELD):
+                    return True
+    return False
+
+
+def _marking_pass(w):
+    """(marking pass, setters, accessors), all found by role in the attribute module:
+    setter   = fn(&mut self, node) that stores into the format-disabled flag;
+    accessor = fn(&mut self, node) -> &mut Attributes (the flag is then stored by the caller);
+    marking pass = the function that loops over the children of a node and sets the flag through either."""
+    core = w.core
+    attr_fns = [b for b in w.fn_bodies(core) if b.def_kind != 'Closure' and b.short.startswith('attr::')]
+    has_node = lambda b: any('SyntaxNode' in b.locals[i]['ty']['s'] for i in range(1, b.arg_count + 1))
+    loops = lambda b: any((callee_path(t) or '').endswith('Iterator::next') for _, t in b.calls())
+    setters = [b for b in attr_fns if has_node(b) and _stores_flag(w, b) and not loops(b)]
+    accessors = [b for b in attr_fns if has_node(b) and b.locals[0]['ty']['s'].startswith('&mut attr::Attributes')]
+    sids, aids = {b.id for b in setters}, {b.id for b in accessors}
+    cands = []
+    for b in attr_fns:
+        if not loops(b):
+            continue
+        calls = {resolved_id(t) for _, t in b.calls()}
+        if calls & sids or (calls & aids and _stores_flag(w, b)):
             cands.append(b)
     if len(cands) != 1:
-        raise AnchorMissing('marking pass (loop over children that calls set_format_disabled): %s' % [c.short for c in cands])
-    return cands[0], setters[0]
+        raise AnchorMissing('marking pass (the loop over children in the attribute module that sets the format-disabled flag): %s' % [c.short for c in cands])
+    return cands[0], setters, accessors
 
 
 def r3_marking_pass(w):
     r = RuleResult('C07.R3', 'the marking pass: a comment containing the directive marks itself and the next node that is not a Space or `#`, once; nothing else is marked', floor=7)
     from sites import evaluate_sequence
-    b, setter = _marking_pass(w)
+    b, setters, accessors = _marking_pass(w)
+    setter_ids = {x.id for x in setters if x.id != b.id}
+    accessor_ids = {x.id for x in accessors}
     v = BodyView(w, b)
     # (a) the directive test is `text(comment).contains("@typstyle off")`
     tests = []
@@ -292,7 +324,7 @@ def r3_marking_pass(w):
 
     def hook(ip, m, f, t, args):
         rid = resolved_id(t)
-        if rid == setter.id:
+        if rid in setter_ids:
             n = None
             for a in args:
                 a = ip.load(a) if isinstance(a, kf.Ref) else a
@@ -300,6 +332,15 @@ def r3_marking_pass(w):
                     n = a
             m.events.append(('mark', n))
             return kf.NOTHING_VAL
+        if rid in accessor_ids:
+            # `self.attrs_mut(node).flag = true`: the store that follows is recorded by the evaluator by field name
+            n = None
+            for a in args:
+                a = ip.load(a) if isinstance(a, kf.Ref) else a
+                if isinstance(a, Node):
+                    n = a
+            m.events.append(('attr-of', n))
+            return kf.TOP
         if rid == b.id and len(m.frames) >= 1:
             n = None
             for a in args:
@@ -320,6 +361,21 @@ def r3_marking_pass(w):
             loop, steps, assumed = item[0], item[1], item[2]
             if loop is None or len(steps) < len(seq):
                 continue
+            # an accessor call followed by a store of `true` into the flag marks the node the accessor was called for
+            steps2 = []
+            for st in steps:
+                cur, out_ = None, []
+                for e in st:
+                    if e[0] == 'attr-of':
+                        cur = e[1]
+                    elif e[0] == 'store' and str(e[1]).endswith(FLAG_FIELD) and cur is not None:
+                        if isinstance(e[2], Const) and e[2].v is True:
+                            out_.append(('mark', cur))
+                        cur = None
+                    else:
+                        out_.append(e)
+                steps2.append(out_)
+            steps = steps2
             st_ = [[(e[0], e[1].kind if isinstance(e[1], Node) else None) for e in st if e[0] in ('mark', 'descend')] for st in steps]
             # the path on which the comment was taken for a directive is the one that marks the comment itself
             out.append((('mark', seq[0].kind) in st_[0], st_))
